@@ -15,7 +15,7 @@ IMPORTS = "Base Json Discover Migrate CorrC20"
 CASE_TYPE = "case_C20"
 MISMATCHES = "mismatches_C20"
 VIOLATIONS = "violations_C20"
-KNOWN = "known_C20"
+KNOWN = None
 SHARD = 40
 EXHAUSTIVE = {"quick": False, "thorough": True}
 RULE = ("one case = one real project directory written the way signac 1.x did (vendored ConfigObj writes signac.rc with "
